@@ -85,8 +85,8 @@ CHECKS = {
    ref="DESIGN.md §5 C12",
    note="Polygon: the even-odd rule as written is the specification (no Jordan-curve argument); the translator checks its loop skeleton on the AST and proves the edge condition. np.cos/np.sin of the rotation angle are the parameters cos/sin of the model (not modelled). get_constraint_indices' gather/filter and the coordinate look-up are tied by the differential only. Holds after fix 4aaa670 (Cylinder loc='in')."),
  "C13": dict(
-   cat="proof", technique="Lean 4 theorems (box set/order via index transposition, half-open dataframe box, ravel/unravel inverse, module name of <identifier>.py for every identifier) + exact differential incl. real temporary files",
-   text="box_order, transposeIdx_involutive, box_set, dfBox_mem, ravel_unravel, unravel_ravel, module_name_spec, module_name_old_wrong; the real helpers, UserDefinedConstraints (equation and file) and load_functional_constraints are executed on generated inputs and files.",
+   cat="proof", technique="Lean 4 theorems (box set/order via index transposition, half-open dataframe box, ravel/unravel inverse, module name of <identifier>.py for every identifier) + translator regenerating the membership tests of both box helpers from the source AST with kernel-checked equality to the model's filter conditions + exact differential incl. real temporary files",
+   text="harness/translate_boxes.py re-derives on every run the loop conditions of get_constrained_sensors_indices / _dataframe (box_Box, box_DfBox; indices_Box lifts through translated_box to the model's boxIndices) and compares the statements around the loops with the modelled skeleton; box_order, transposeIdx_involutive, box_set, dfBox_mem, ravel_unravel, unravel_ravel, module_name_spec, module_name_old_wrong; the real helpers, UserDefinedConstraints (equation and file) and load_functional_constraints are executed on generated inputs and files.",
    ref="DESIGN.md §5 C13",
    note="Python eval/__import__, numpy unravel/ravel and pandas dropna are parameters. Holds after fix 215804b (.strip('.py'))."),
  "C14": dict(
